@@ -37,7 +37,7 @@ Tuples(Q, n) == IF n = 0 THEN {<<>>}
                 ELSE IF n = 1 THEN {<<q>> : q \in Q}
                 ELSE {<<p, q>> : p \in Q, q \in Q}
 AllRules(Q) == UNION {{<<s[1], k, q>> : k \in Tuples(Q, s[2]), q \in Q} : s \in Alpha}
-RuleSets(Q, m) == UNION {kSubset(k, AllRules(Q)) : k \in 0..m}
+RuleSets(Q, m) == UNION {kSubset(k, AllRules(Q)) : k \in 0..(IF m < Cardinality(AllRules(Q)) THEN m ELSE Cardinality(AllRules(Q)))}
 Auts(Q, m) == {[fin |-> F, rules |-> R] : F \in SUBSET Q, R \in RuleSets(Q, m)}
 
 \* LET-bound values are evaluated once (a top-level definition that reads IOEnv is re-evaluated at every use)
